@@ -195,6 +195,11 @@ def main():
         fn = getattr(mod, spec["func"])
         if hasattr(mod, "setup"):
             mod.setup()
+        # index-enumeration harnesses: evaluate the partition's dimensions once, natively, BEFORE the analysis starts
+        # (a cache filled on the first path would make that path differ from the others)
+        dims_fn = (getattr(mod, "DIMS", None) or {}).get(spec["func"])
+        if dims_fn is not None:
+            h.DIMS_NOW = dims_fn(h.P)
         if not getattr(mod, "NO_FAST_PATHS", False):
             from kit import fast
             fast.install()
